@@ -446,6 +446,8 @@ def finish(
         cov["theorems_discharged"] = cov.pop("discharged")
     if extra_cov:
         cov.update(extra_cov)
+    if getattr(ctx, "drift", None) is not None:
+        cov["source_drift"] = dict(ctx.drift, budget_scale=ctx.budget_scale)
     ev = {
         "property_id": ctx.prop,
         "tier": ctx.tier,
